@@ -44,8 +44,13 @@ def grids(tier: str, seed: int):
     return pair, trip, phased
 
 
+# operands next to the branch points 0, 1/2 and 1 (closer than the library tolerance atol = 1e-3, down to subnormals)
+EDGE = sorted({0.0, 5e-324, 2.0**-1022, 2.0**-60, 2.0**-20, 2.0**-10, 0.25, 0.5 - 2.0**-10, 0.5 - 2.0**-20, 0.5,
+               0.5 + 2.0**-20, 0.5 + 2.0**-10, 0.75, 1 - 2.0**-10, 1 - 2.0**-20, 1 - 2.0**-53, 1.0})
+
+
 def plan(tier: str, seed: int):
-    return [(name, part) for name in R.TNORMS + R.SNORMS for part in ("dyadic", "phased", "triples")]
+    return [(name, part) for name in R.TNORMS + R.SNORMS for part in ("dyadic", "phased", "edge", "triples")]
 
 
 def impl_of(name: str):
@@ -68,6 +73,12 @@ def check_pairs(acc: Acc, name: str, grid: list[float], exact_grid: bool, lattic
     # value, so rounding is monotone); 1e-12 on the non-dyadic lattice where e.g. (a+1)-1 != a is plain rounding
     tol = 0.0 if exact_grid else 1e-12
     eq = same if exact_grid else close
+
+    def region(x, y):
+        """Tag of the known numerical weakness (known_findings.json C04-hamacher-sum-near-one)."""
+        if name == "HamacherSum" and min(x, y) >= 1 - 2.0**-19 and (x < 1.0 or y < 1.0):
+            return {"region": "both-operands-within-2^-19-of-1"}
+        return {}
     for i, a in enumerate(grid):
         for j, b in enumerate(grid):
             interior = 0.0 < a < 1.0 and 0.0 < b < 1.0
@@ -84,51 +95,52 @@ def check_pairs(acc: Acc, name: str, grid: list[float], exact_grid: bool, lattic
                 ok = same(v, want)
                 acc.cls("formula_exact")
             else:
-                ok = close(v, want, 1e-12, 1e-12)
+                # absolute slack of a few ulps of 1.0: a + b - 1 absorbs operands below 2^-53 (plain rounding)
+                ok = close(v, want, 1e-12 if lattice != "edge" else 1e-15, 1e-12)
                 acc.cls("formula_tolerance")
             if not ok:
-                acc.violate("formula", {"norm": name, "lattice": lattice}, case, want, v,
+                acc.violate("formula", {**region(a, b), "norm": name, "lattice": lattice}, case, want, v,
                             f"{name}({a},{b}) = {v!r}, documented formula gives {want!r}")
             # range
             if name == "UnboundedSum":
                 if not same(v, a + b):
-                    acc.violate("range", {"norm": name}, case, a + b, v, f"UnboundedSum({a},{b}) != a+b")
+                    acc.violate("range", {**region(a, b), "norm": name}, case, a + b, v, f"UnboundedSum({a},{b}) != a+b")
             elif not (0.0 - tol <= v <= 1.0 + tol):
-                acc.violate("range", {"norm": name}, case, "[0,1]", v, f"{name}({a},{b}) = {v!r} outside [0,1]")
+                acc.violate("range", {**region(a, b), "norm": name}, case, "[0,1]", v, f"{name}({a},{b}) = {v!r} outside [0,1]")
             # commutativity
             if not same(v, float(M[j, i])):
-                acc.violate("commutativity", {"norm": name}, case, float(M[j, i]), v,
+                acc.violate("commutativity", {**region(a, b), "norm": name}, case, float(M[j, i]), v,
                             f"{name}({a},{b}) != {name}({b},{a})")
             # monotonicity in the first argument (the second follows from the full grid + commutativity)
             if i + 1 < n:
                 nxt = float(M[i + 1, j])
                 if not (v <= nxt + tol):
-                    acc.violate("monotonicity", {"norm": name}, {**case, "a2": grid[i + 1]}, f">= {v!r}", nxt,
+                    acc.violate("monotonicity", {**region(a, b), "norm": name}, {**case, "a2": grid[i + 1]}, f">= {v!r}", nxt,
                                 f"{name} decreases from a={a} to a={grid[i + 1]} at b={b}")
             # bounds against min/max
             if is_t:
                 if not (v <= min(a, b) + tol):
-                    acc.violate("t-le-min", {"norm": name}, case, min(a, b), v, f"{name}({a},{b}) > min")
+                    acc.violate("t-le-min", {**region(a, b), "norm": name}, case, min(a, b), v, f"{name}({a},{b}) > min")
             else:
                 if not (v >= max(a, b) - tol):
-                    acc.violate("s-ge-max", {"norm": name}, case, max(a, b), v, f"{name}({a},{b}) < max")
+                    acc.violate("s-ge-max", {**region(a, b), "norm": name}, case, max(a, b), v, f"{name}({a},{b}) < max")
         # identity and annihilator
         a = grid[i]
         case = {"norm": name, "a": a, "b": 1.0 if is_t else 0.0}
         if is_t:
             ident, annih = float(impl.compute(a, 1.0)), float(impl.compute(a, 0.0))
             if not eq(ident, a):
-                acc.violate("identity", {"norm": name}, case, a, ident, f"{name}({a},1) != {a}")
+                acc.violate("identity", {**region(a, 1.0 if not is_t else a), "norm": name}, case, a, ident, f"{name}({a},1) != {a}")
             if not eq(annih, 0.0):
-                acc.violate("annihilator", {"norm": name}, {**case, "b": 0.0}, 0.0, annih, f"{name}({a},0) != 0")
+                acc.violate("annihilator", {**region(a, 1.0 if not is_t else a), "norm": name}, {**case, "b": 0.0}, 0.0, annih, f"{name}({a},0) != 0")
         else:
             ident = float(impl.compute(a, 0.0))
             if not eq(ident, a):
-                acc.violate("identity", {"norm": name}, case, a, ident, f"{name}({a},0) != {a}")
+                acc.violate("identity", {**region(a, 1.0 if not is_t else a), "norm": name}, case, a, ident, f"{name}({a},0) != {a}")
             if name != "UnboundedSum":
                 annih = float(impl.compute(a, 1.0))
                 if not eq(annih, 1.0):
-                    acc.violate("annihilator", {"norm": name}, {**case, "b": 1.0}, 1.0, annih, f"{name}({a},1) != 1")
+                    acc.violate("annihilator", {**region(a, 1.0 if not is_t else a), "norm": name}, {**case, "b": 1.0}, 1.0, annih, f"{name}({a},1) != 1")
     # duality S(a,b) = 1 - T(1-a, 1-b)
     if is_t:
         dual = impl_of(R.DUAL[name])
@@ -136,6 +148,8 @@ def check_pairs(acc: Acc, name: str, grid: list[float], exact_grid: bool, lattic
         D = 1.0 - impl.compute(1.0 - A, 1.0 - B)
         for i, a in enumerate(grid):
             for j, b in enumerate(grid):
+                if lattice == "edge" and any(0.0 < t < 2.0**-30 for t in (a, b, 1.0 - a, 1.0 - b)):
+                    continue  # 1 - a is absorbed to 1 (or a to 0) in floating point: the complement is not exact
                 acc.cls("duality_pairs")
                 if not close(float(S[i, j]), float(D[i, j]), 1e-12, 1e-12):
                     acc.violate("duality", {"norm": name, "dual": R.DUAL[name]}, {"norm": name, "a": a, "b": b},
@@ -180,6 +194,8 @@ def run_shard(tier: str, seed: int, shard):
         acc.sample({"norm": name, "a": pair[3], "b": pair[5], "value": float(impl_of(name).compute(pair[3], pair[5]))})
     elif part == "phased":
         acc.guard(case, check_pairs, acc, name, phased, False, "phased")
+    elif part == "edge":
+        acc.guard(case, check_pairs, acc, name, EDGE, False, "edge")
     else:
         acc.guard({**case, "c": 0.5}, check_triples, acc, name, trip)
     return acc.result()
@@ -192,7 +208,8 @@ def summarize(tier: str, seed: int, merged: dict) -> dict:
         vac.append("not every dyadic pair of every norm was compared with the exact formula")
     return {
         "rule": (
-            f"all pairs on the dyadic grid D (|D|={len(pair)}) and on the seed-phased lattice (|L|={len(phased)}), all "
+            f"all pairs on the dyadic grid D (|D|={len(pair)}), on the seed-phased lattice (|L|={len(phased)}) and on the "
+            f"edge set next to 0, 1/2 and 1 ({len(EDGE)} operands down to 2^-53 from 1 and subnormals), all "
             f"triples on |D3|={len(trip)}, for 7 T-norms and 9 S-norms; scalar, 1-D and 2-D array entry points; a "
             "case is non-trivial when all operands are strictly inside (0,1); triples counted by a 1/4096 stride sample"
         ),
